@@ -416,6 +416,45 @@ Proof.
         rewrite Rabs_left1 by lra. lra.
 Qed.
 
+(* helpers for the per-spike scan and the per-train projections *)
+Definition fs_le_hd (x : R) (g : list R) : Prop :=
+  match g with z :: _ => x <= z | [] => True end.
+
+Lemma fs_skip x : forall f2 p2,
+  exists q2 g2, skip_before ROps x p2 f2 = (q2, g2) /\ rev q2 ++ g2 = rev p2 ++ f2 /\
+    fs_le_hd x g2 /\ ((q2 = p2 /\ g2 = f2) \/ exists y q', q2 = y :: q' /\ y < x).
+Proof.
+  induction f2 as [|y f2 IH]; intros p2; cbn [skip_before nltb ROps].
+  - exists p2, []. repeat split; auto; exact Logic.I.
+  - destruct (Rltb_spec y x) as [L|L].
+    + destruct (IH (y :: p2)) as (q2 & g2 & E & Z & Lg & D). exists q2, g2.
+      split; [exact E|]. split; [rewrite Z; apply fs_rev_cons_app|]. split; [exact Lg|].
+      right. destruct D as [[-> ->]|D]; [exists y, p2; auto | exact D].
+    + exists p2, (y :: f2). repeat split; auto. cbn; lra.
+Qed.
+
+Lemma fs_is_shared_eq (c : @ctx R) : forall s prev,
+  is_shared ROps c (contexts_from prev s) = existsb (fun y => Reqb (c_cur c) y) s.
+Proof.
+  unfold is_shared. induction s as [|z s IH]; intros prev;
+    cbn [contexts_from existsb c_cur neqb ROps]; [reflexivity|]. rewrite IH. reflexivity.
+Qed.
+Lemma fs_is_shared_true (c : @ctx R) s : In (c_cur c) s -> is_shared ROps c (contexts s) = true.
+Proof.
+  intros H. unfold contexts. rewrite fs_is_shared_eq. apply existsb_exists.
+  exists (c_cur c). split; [exact H | apply Reqb_true; reflexivity].
+Qed.
+Lemma fs_is_shared_false (c : @ctx R) s : ~ In (c_cur c) s -> is_shared ROps c (contexts s) = false.
+Proof.
+  intros H. unfold contexts. rewrite fs_is_shared_eq.
+  destruct (existsb _ s) eqn:E; [|reflexivity]. exfalso.
+  apply existsb_exists in E as (y & Hy & Ey). apply Reqb_true in Ey. subst y. auto.
+Qed.
+
+Definition fs_sv (lim m : R) (s2 : list R) (c : @ctx R) : R :=
+  if has_partner ROps lim m c (contexts s2) || is_shared ROps c (contexts s2)
+  then n1 ROps else n0 ROps.
+
 (* ------------------------------------------------------------------ *)
 (* 4. the merge scan                                                   *)
 
@@ -979,6 +1018,63 @@ Section Scan.
         * eapply fs_zip_f; [exact (fs_inv_S2 I) | exact Ht].
   Qed.
 
+  (* ---------------------------------------------------------------- *)
+  (* per-train projections of the marked events                         *)
+
+  Fixpoint fs_proj1 (evs : list (@sev R)) : list R :=
+    match evs with
+    | [] => []
+    | Adv1 _ h :: r => (if h || fs_next_hit r then n1 ROps else n0 ROps) :: fs_proj1 r
+    | Adv2 _ _ :: r => fs_proj1 r
+    | Both _ :: r => n1 ROps :: fs_proj1 r
+    end.
+  Fixpoint fs_proj2 (evs : list (@sev R)) : list R :=
+    match evs with
+    | [] => []
+    | Adv1 _ _ :: r => fs_proj2 r
+    | Adv2 _ h :: r => (if h || fs_next_hit r then n1 ROps else n0 ROps) :: fs_proj2 r
+    | Both _ :: r => n1 ROps :: fs_proj2 r
+    end.
+
+  Lemma fs_proj_gen k p1 f1 p2 f2 :
+    fs_inv p1 f1 p2 f2 -> (length f1 + length f2 <= k)%nat ->
+    fs_next_hit (coinc_events ROps fs_tau k p1 f1 p2 f2) = fs_nh p1 f1 p2 f2 /\
+    fs_proj1 (coinc_events ROps fs_tau k p1 f1 p2 f2)
+      = map (fs_sv lim m s2) (contexts_from (hd_error p1) f1) /\
+    fs_proj2 (coinc_events ROps fs_tau k p1 f1 p2 f2)
+      = map (fs_sv lim m s1) (contexts_from (hd_error p2) f2).
+  Proof.
+    apply (fs_scan_ind (fun p1 f1 p2 f2 evs =>
+      fs_next_hit evs = fs_nh p1 f1 p2 f2 /\
+      fs_proj1 evs = map (fs_sv lim m s2) (contexts_from (hd_error p1) f1) /\
+      fs_proj2 evs = map (fs_sv lim m s1) (contexts_from (hd_error p2) f2))).
+    - intros; repeat split; reflexivity.
+    - intros q1 a g1 q2 g2 r I L I' (IH1 & IH2 & IH3). split; [|split].
+      + rewrite fs_nh_adv1 by exact L. cbn [fs_next_hit].
+        destruct (fs_hit1 q1 a g1 q2 g2); reflexivity.
+      + cbn [fs_proj1 contexts_from map]. rewrite IH1, IH2. f_equal.
+        unfold fs_sv. rewrite <- (fs_val1 _ _ _ _ _ I L).
+        rewrite fs_is_shared_false by (cbn [c_cur]; exact (fs_notin2 _ _ _ _ _ I L)).
+        rewrite orb_false_r. reflexivity.
+      + cbn [fs_proj2]. exact IH3.
+    - intros q1 g1 q2 b g2 r I L I' (IH1 & IH2 & IH3). split; [|split].
+      + rewrite fs_nh_adv2 by exact L. cbn [fs_next_hit].
+        destruct (fs_hit2 q1 g1 q2 b g2); reflexivity.
+      + cbn [fs_proj1]. exact IH2.
+      + cbn [fs_proj2 contexts_from map]. rewrite IH1, IH3. f_equal.
+        unfold fs_sv. rewrite <- (fs_val2 _ _ _ _ _ I L).
+        rewrite fs_is_shared_false by (cbn [c_cur]; exact (fs_notin1 _ _ _ _ _ I L)).
+        rewrite orb_false_r. reflexivity.
+    - intros q1 a g1 q2 g2 r I I' (IH1 & IH2 & IH3). split; [|split].
+      + rewrite fs_nh_both. reflexivity.
+      + cbn [fs_proj1 contexts_from map]. rewrite IH2. f_equal.
+        unfold fs_sv. rewrite fs_is_shared_true, orb_true_r; [reflexivity|].
+        cbn [c_cur]. rewrite <- (fi_2 I). apply in_or_app. right. left. reflexivity.
+      + cbn [fs_proj2 contexts_from map]. rewrite IH3. f_equal.
+        unfold fs_sv. rewrite fs_is_shared_true, orb_true_r; [reflexivity|].
+        cbn [c_cur]. rewrite <- (fi_1 I). apply in_or_app. right. left. reflexivity.
+  Qed.
+
 End Scan.
 
 (* ------------------------------------------------------------------ *)
@@ -1085,49 +1181,11 @@ Qed.
 (* ------------------------------------------------------------------ *)
 (* 7. the per-spike scan                                               *)
 
-Definition fs_le_hd (x : R) (g : list R) : Prop :=
-  match g with z :: _ => x <= z | [] => True end.
-
-Lemma fs_skip x : forall f2 p2,
-  exists q2 g2, skip_before ROps x p2 f2 = (q2, g2) /\ rev q2 ++ g2 = rev p2 ++ f2 /\
-    fs_le_hd x g2 /\ ((q2 = p2 /\ g2 = f2) \/ exists y q', q2 = y :: q' /\ y < x).
-Proof.
-  induction f2 as [|y f2 IH]; intros p2; cbn [skip_before nltb ROps].
-  - exists p2, []. repeat split; auto; exact Logic.I.
-  - destruct (Rltb_spec y x) as [L|L].
-    + destruct (IH (y :: p2)) as (q2 & g2 & E & Z & Lg & D). exists q2, g2.
-      split; [exact E|]. split; [rewrite Z; apply fs_rev_cons_app|]. split; [exact Lg|].
-      right. destruct D as [[-> ->]|D]; [exists y, p2; auto | exact D].
-    + exists p2, (y :: f2). repeat split; auto. cbn; lra.
-Qed.
-
-Lemma fs_is_shared_eq (c : @ctx R) : forall s prev,
-  is_shared ROps c (contexts_from prev s) = existsb (fun y => Reqb (c_cur c) y) s.
-Proof.
-  unfold is_shared. induction s as [|z s IH]; intros prev;
-    cbn [contexts_from existsb c_cur neqb ROps]; [reflexivity|]. rewrite IH. reflexivity.
-Qed.
-Lemma fs_is_shared_true (c : @ctx R) s : In (c_cur c) s -> is_shared ROps c (contexts s) = true.
-Proof.
-  intros H. unfold contexts. rewrite fs_is_shared_eq. apply existsb_exists.
-  exists (c_cur c). split; [exact H | apply Reqb_true; reflexivity].
-Qed.
-Lemma fs_is_shared_false (c : @ctx R) s : ~ In (c_cur c) s -> is_shared ROps c (contexts s) = false.
-Proof.
-  intros H. unfold contexts. rewrite fs_is_shared_eq.
-  destruct (existsb _ s) eqn:E; [|reflexivity]. exfalso.
-  apply existsb_exists in E as (y & Hy & Ey). apply Reqb_true in Ey. subst y. auto.
-Qed.
-
 Section Single.
   Variables (lim m : R) (s1 s2 : list R).
   Hypothesis S1 : ssorted s1.
   Hypothesis S2 : ssorted s2.
   Hypothesis Hlim : 0 < lim.
-
-  Definition fs_sv (c : @ctx R) : R :=
-    if has_partner ROps lim m c (contexts s2) || is_shared ROps c (contexts s2)
-    then n1 ROps else n0 ROps.
 
   Record fs_sinv (p1 f1 p2 f2 : list R) : Prop := mk_fs_sinv {
     si_1 : rev p1 ++ f1 = s1;
@@ -1146,7 +1204,7 @@ Section Single.
     fs_sinv p1 (x :: f1') p2 f2 ->
     exists q g,
       coinc_single_loop ROps (fs_tau lim m) p1 (x :: f1') p2 f2
-      = fs_sv (mkCtx (hd_error p1) x (hd_error f1'))
+      = fs_sv lim m s2 (mkCtx (hd_error p1) x (hd_error f1'))
         :: coinc_single_loop ROps (fs_tau lim m) (x :: p1) f1' q g
       /\ fs_sinv (x :: p1) f1' q g.
   Proof.
@@ -1256,7 +1314,7 @@ Section Single.
 
   Lemma fs_single_gen : forall f1 p1 p2 f2, fs_sinv p1 f1 p2 f2 ->
     coinc_single_loop ROps (fs_tau lim m) p1 f1 p2 f2
-    = map fs_sv (contexts_from (hd_error p1) f1).
+    = map (fs_sv lim m s2) (contexts_from (hd_error p1) f1).
   Proof.
     induction f1 as [|x f1' IH]; intros p1 p2 f2 I.
     - reflexivity.
@@ -1277,6 +1335,156 @@ Proof.
   - split; reflexivity.
 Qed.
 
+(* ------------------------------------------------------------------ *)
+(* 8. corollaries                                                      *)
+
+Lemma fs_sumF_cons x l : sumF ROps (x :: l) = x + sumF ROps l.
+Proof. reflexivity. Qed.
+
+(* number of coincidences found by the scan: hits and shared times *)
+Fixpoint fs_hb (evs : list (@sev R)) : R :=
+  match evs with
+  | [] => 0
+  | Adv1 _ h :: r => (if h then 1 else 0) + fs_hb r
+  | Adv2 _ h :: r => (if h then 1 else 0) + fs_hb r
+  | Both _ :: r => 1 + fs_hb r
+  end.
+Fixpoint fs_mp (evs : list (@sev R)) : R :=
+  match evs with
+  | [] => 0
+  | Adv1 _ _ :: r => 1 + fs_mp r
+  | Adv2 _ _ :: r => 1 + fs_mp r
+  | Both _ :: r => 2 + fs_mp r
+  end.
+Definition fs_hd1hit (evs : list (@sev R)) : R :=
+  match evs with Adv1 _ true :: _ => 1 | _ => 0 end.
+Definition fs_hd2hit (evs : list (@sev R)) : R :=
+  match evs with Adv2 _ true :: _ => 1 | _ => 0 end.
+
+Lemma fs_cnt : forall evs prev, clean_from prev evs = true ->
+  sumF ROps (fs_proj1 evs) = fs_hb evs - fs_hd2hit evs /\
+  sumF ROps (fs_proj2 evs) = fs_hb evs - fs_hd1hit evs /\
+  sumF ROps (map (@e_y R) (fs_entries evs)) = 2 * fs_hb evs - fs_hd1hit evs - fs_hd2hit evs /\
+  sumF ROps (map (@e_mp R) (fs_entries evs)) = fs_mp evs.
+Proof.
+  induction evs as [|e r IH]; intros prev C.
+  - cbn. repeat split; lra.
+  - cbn [clean_from] in C. apply andb_true_iff in C as [_ C].
+    destruct (IH _ C) as (A1 & A2 & A3 & A4). clear IH.
+    destruct e as [t [|]|t [|]|t]; destruct r as [|[u [|]|u [|]|u] r'];
+      cbn [clean_from andb] in C; try discriminate C;
+      cbn [fs_proj1 fs_proj2 fs_entries fs_hb fs_mp fs_hd1hit fs_hd2hit fs_next_hit
+           orb map e_y e_mp fst snd] in *;
+      rewrite ?fs_sumF_cons, ?R_n2 in *; rops; repeat split; lra.
+Qed.
+
+Lemma fs_clean_none_hd evs : clean_from None evs = true ->
+  fs_hd1hit evs = 0 /\ fs_hd2hit evs = 0.
+Proof.
+  destruct evs as [|[u [|]|u [|]|u] r]; cbn; intros H; try discriminate H; split; reflexivity.
+Qed.
+
+Lemma fs_cv : forall evs c mp,
+  coinc_value ROps evs c mp = (c + 2 * fs_hb evs, mp + fs_mp evs).
+Proof.
+  induction evs as [|[t [|]|t [|]|t] r IH]; intros c mp; cbn [coinc_value fs_hb fs_mp];
+    [|rewrite IH ..]; f_equal; rops; lra.
+Qed.
+
+Lemma fs_interior ts te (entries : list (R * R * R)) :
+  interior_entries (frame_profile ROps ts te entries) = entries.
+Proof.
+  destruct entries as [|e0 r]; [reflexivity|].
+  unfold interior_entries, frame_profile. cbn [tl]. apply removelast_last.
+Qed.
+
+Theorem coinc_value_fusion : forall s1 s2 ts te mt m, valid ts te s1 -> valid ts te s2 ->
+  coinc_value ROps (coinc_scan ROps (tau_fn ROps (get_tau ROps) ts te mt m) s1 s2) 0 0
+  = (sumF ROps (map (@e_y R)
+       (interior_entries (coincidence_profile_gen ROps (get_tau ROps) s1 s2 ts te mt m))),
+     sumF ROps (map (@e_mp R)
+       (interior_entries (coincidence_profile_gen ROps (get_tau ROps) s1 s2 ts te mt m)))).
+Proof.
+  intros s1 s2 ts te mt m V1 V2. pose proof (scan_clean s1 s2 ts te mt m V1 V2) as C.
+  unfold coincidence_profile_gen. rewrite fs_interior.
+  set (evs := coinc_scan ROps (tau_fn ROps (get_tau ROps) ts te mt m) s1 s2) in *.
+  rewrite (fs_mark_la evs None [] C).
+  assert (E : (if fs_next_hit evs then set_head_val (n1 ROps) [] else []) = @nil (R * R * R))
+    by (destruct (fs_next_hit evs); reflexivity).
+  rewrite E. cbn [rev app].
+  destruct (fs_cnt evs None C) as (_ & _ & A3 & A4).
+  destruct (fs_clean_none_hd evs C) as [H1 H2].
+  rewrite fs_cv, A3, A4, H1, H2. f_equal; lra.
+Qed.
+
+Theorem sync_balanced : forall s1 s2 ts te mt m, valid ts te s1 -> valid ts te s2 ->
+  sumF ROps (single_spec ROps s1 s2 ts te mt m) = sumF ROps (single_spec ROps s2 s1 ts te mt m).
+Proof.
+  intros s1 s2 ts te mt m V1 V2. pose proof (scan_clean s1 s2 ts te mt m V1 V2) as C.
+  destruct V1 as (_ & S1 & _), V2 as (_ & S2 & _).
+  set (lim := lim_of ROps ts te mt).
+  change (sumF ROps (map (fs_sv lim m s2) (contexts s1))
+          = sumF ROps (map (fs_sv lim m s1) (contexts s2))).
+  change (tau_fn ROps (get_tau ROps) ts te mt m) with (fs_tau lim m) in C.
+  destruct (fs_proj_gen lim m s1 s2 S1 S2 (length s1 + length s2) [] s1 [] s2
+              (fs_inv_init s1 s2) (le_n _)) as (_ & P1 & P2).
+  change (contexts_from (hd_error []) s1) with (contexts s1) in P1.
+  change (contexts_from (hd_error []) s2) with (contexts s2) in P2.
+  fold (coinc_scan ROps (fs_tau lim m) s1 s2) in P1, P2.
+  rewrite <- P1, <- P2.
+  destruct (fs_cnt _ None C) as (A1 & A2 & _).
+  destruct (fs_clean_none_hd _ C) as [H1 H2].
+  rewrite A1, A2, H1, H2. reflexivity.
+Qed.
+
+(* a spike has at most one partner *)
+Lemma fs_ctx_cur_inj (s : list R) d d' :
+  ssorted s -> In d (contexts s) -> In d' (contexts s) -> c_cur d = c_cur d' -> d = d'.
+Proof.
+  intros S H H' E.
+  destruct (fs_ctx_zip s d H) as (p & f & Ez & D).
+  destruct (fs_ctx_zip s d' H') as (p' & f' & Ez' & D').
+  rewrite <- E in Ez', D'.
+  assert (Z : p = p' /\ f = f').
+  { apply (fs_zip_unique (c_cur d)); [rewrite Ez; exact S | rewrite Ez, Ez'; reflexivity]. }
+  destruct Z as [<- <-]. etransitivity; [exact D | symmetry; exact D'].
+Qed.
+
+Lemma fs_no_two_partners lim m (s : list R) c d d' :
+  ssorted s -> In d (contexts s) -> In d' (contexts s) -> c_cur d < c_cur d' ->
+  coinc ROps lim m c d = true -> coinc ROps lim m c d' = true -> False.
+Proof.
+  intros S H H' L A B.
+  apply fs_coinc_true in A as [NA A]. apply fs_coinc_true in B as [NB B].
+  destruct (fs_NA_next s d (c_cur d') S H (fs_ctx_cur_in _ _ H') L) as (n & Hn & Ln).
+  destruct (fs_NA_prev s d' (c_cur d) S H' (fs_ctx_cur_in _ _ H) L) as (q & Hq & Lq).
+  destruct (Rlt_dec (c_cur c) (c_cur d)) as [L1|L1].
+  - destruct (fs_tau_lt_bound lim m c d') as [_ B2]; [lra|].
+    unfold fs_gP in B2. rewrite Hq in B2. rewrite Rabs_left1 in B by lra. lra.
+  - assert (L1' : c_cur d < c_cur c) by lra.
+    destruct (fs_tau_gt_bound lim m c d L1') as [_ A2].
+    unfold fs_gF in A2. rewrite Hn in A2. rewrite Rabs_right in A by lra.
+    destruct (Rlt_dec (c_cur c) (c_cur d')) as [L2|L2].
+    + destruct (fs_tau_lt_bound lim m c d' L2) as [_ B2].
+      unfold fs_gP in B2. rewrite Hq in B2. rewrite Rabs_left1 in B by lra. lra.
+    + lra.
+Qed.
+
+Theorem one_to_one : forall s1 s2 ts te mt m c d d', valid ts te s1 -> valid ts te s2 ->
+  In c (contexts s1) -> In d (contexts s2) -> In d' (contexts s2) ->
+  coinc ROps (lim_of ROps ts te mt) m c d = true ->
+  coinc ROps (lim_of ROps ts te mt) m c d' = true -> d = d'.
+Proof.
+  intros s1 s2 ts te mt m c d d' _ (_ & S2 & _) _ H H' A B.
+  destruct (Rtotal_order (c_cur d) (c_cur d')) as [L|[E|L]].
+  - exfalso. exact (fs_no_two_partners _ _ s2 c d d' S2 H H' L A B).
+  - exact (fs_ctx_cur_inj s2 d d' S2 H H' E).
+  - exfalso. exact (fs_no_two_partners _ _ s2 c d' d S2 H' H L B A).
+Qed.
+
 Print Assumptions scan_clean.
 Print Assumptions sync_profile_spec.
 Print Assumptions single_profile_spec.
+Print Assumptions one_to_one.
+Print Assumptions sync_balanced.
+Print Assumptions coinc_value_fusion.
